@@ -419,8 +419,6 @@ def run_case(inp):
             same = bool(np.allclose(matrix(a, pool), matrix(b, pool), rtol=0, atol=1e-7))
             ok = out == same
             msg = "" if ok else f"{to_py(a)!r} == {to_py(b)!r} is {out} but the matrices are {'equal' if same else 'different'}"
-            if (a["k"] == "S" and not a["terms"] and is_zero_number(b)) or (b["k"] == "S" and not b["terms"] and is_zero_number(a)):
-                sig = "F33"
         return dict(chk=chk, oracle_ok=ok, oracle_msg=msg, sig=sig, nontrivial=nontrivial(a, b),
                     kind=f"eq-{a['k']}{b['k']}-{'simplified' if both else 'unsimplified'}-{out}")
     if kind == "invalid":
@@ -438,8 +436,9 @@ def run_case(inp):
                     kind="invalid-" + what, nontrivial=nontrivial(a))
     raise ValueError(kind)
 
-def w_f27():
-    bad = not (PauliSum([]) == 0) or not (0 == PauliSum([]))
-    return bad, f"PauliSum([]) == 0 -> {PauliSum([]) == 0}; PauliSum([]) == PauliTerm('I0', 0) -> {PauliSum([]) == PauliTerm('I0', 0)}"
+def w_f33():
+    vals = [PauliSum([]) == 0, 0 == PauliSum([]), PauliSum([]) == 0.0, (PauliTerm("X0") - PauliTerm("X0")) == 0,
+            not (PauliSum([]) == 2), PauliSum([]) == PauliTerm("I0", 0)]
+    return not all(bool(v) for v in vals), f"[S[]==0, 0==S[], S[]==0.0, (X0-X0)==0, not S[]==2, S[]==T(0)] -> {[bool(v) for v in vals]}"
 
-H.main(gen, run_case, {"F33": w_f27})
+H.main(gen, run_case, {"F33": w_f33})
